@@ -116,6 +116,9 @@ def _h0_case(draw, mode):
         case["dtype"] = draw(st.sampled_from(["float64", "complex128", "float32", "complex64", "int64"]))
         case["at_eigenvalue"] = draw(st.booleans())
         case["shift"] = draw(st.sampled_from([0.5, -0.5, 0.25]))
+        # degenerate kernel whose two vectors live on disjoint sites, (1,1,0,...)/sqrt2 and (0,0,1,1,1,1,0,...)/2: the
+        # rows with the largest kernel weight (both on the first vector) do NOT fix the gauge of the kernel
+        case["structured_kernel"] = draw(st.integers(0, 3)) == 0
     if mode == "kpm":
         case["kpm_atol"] = draw(st.sampled_from([1e-5, 1e-6, None]))  # None: library default (1e-5), no "atol" option
         case["n_aux"] = draw(st.integers(0, 2))
@@ -447,6 +450,20 @@ def _check_greens(case, out, wlist):
     H = H0.astype(dtype)
     rtol = 2e-3 if dtype.itemsize <= 8 and dtype.kind == "c" or dtype == np.float32 else 1e-9
     Ev = E.real
+    if case.get("structured_kernel") and case["at_eigenvalue"] and n >= 6 and case["dtype"] in ("float64", "complex128"):
+        v1 = np.zeros(n)
+        v1[:2] = 1 / np.sqrt(2)
+        v2 = np.zeros(n)
+        v2[2:6] = 0.5
+        G_ = _cm(case["G"], case["dtype"] == "complex128") + 4 * np.eye(n)
+        Q_, _ = np.linalg.qr(np.column_stack([v1, v2, G_[:, : n - 2]]))
+        Q_[:, 0], Q_[:, 1] = v1, v2  # (QR may flip signs; the first two columns are orthonormal already)
+        Ev = np.array([1.0, 1.0] + [2.0 + q for q in range(n - 2)])
+        H = ((Q_ * Ev) @ Q_.conj().T).astype(dtype)
+        if dtype.kind == "f":
+            H = H.real.astype(dtype)
+        R = Q_
+        out.labels.append("structured-degenerate-kernel")
     if case["at_eigenvalue"]:
         energy = Ev[0]
         group = [q for q in range(n) if abs(Ev[q] - energy) < 1e-9]
